@@ -61,8 +61,8 @@ class SimulationResult(dict):
             )
 
         self.__array = np.array(results)
-        self.__inputs = inputs
-        self.__outputs = outputs
+        self.__inputs = list(inputs)
+        self.__outputs = list(outputs)
         if len(self.__inputs) != self.__array.shape[0]:
             raise ResultCreationError(
                 "Mismatch between inputs length and array size."
